@@ -252,3 +252,47 @@ def check_no_own_keyinit(rep, fb):
                 inst = "%s::%s" % (cr.name, im["self"])
                 mine = [o for o in own if o.get("self_adt") == im.get("self_adt")]
                 rep.ob("keyinit.blanket", inst, not mine, "constructed from key bytes through the blanket impl over %s" % im["trait_name"] if not mine else "implements %s itself" % mine[0]["trait_name"])
+
+
+ANALYSED_OVERRIDES = {
+    # provided methods whose overriding bodies are analysed by some rule
+    "encrypt_par_blocks", "decrypt_par_blocks", "gen_par_ks_blocks",      # blockmode/streammode par closed form
+    "encrypt_tail_blocks", "decrypt_tail_blocks", "gen_tail_blocks",      # reported as undecided by check_par
+    "clone_from",                                                          # itemrules.check_clone_bodies
+}
+CORE_PROVIDED = {"core::clone::Clone": {"clone_from"}, "core::cmp::PartialEq": {"ne"}, "core::default::Default": set(), "core::fmt::Debug": set(), "core::ops::Drop": set()}
+
+
+def check_overrides(rep, fb):
+    """the analyses rely on the provided methods of the `cipher` traits (T2) and of the crate's own
+    traits: a workspace impl that overrides a provided method none of the rules analyses would
+    change behaviour behind their back, so it is reported (fail closed)."""
+    provided = {}
+    for src in ("cipher",) + tuple(c.name for c in fb.workspace()):
+        c = fb.crates.get(src)
+        if c is None:
+            continue
+        for t in c.traits:
+            provided[(src, t["name"])] = {i["name"] for i in t["items"] if i["provided"] and i["kind"] == "AssocFn"}
+    n = 0
+    for cr in fb.workspace():
+        for im in cr.impls:
+            tn, tk = im.get("trait_name"), im.get("trait_krate")
+            if tn is None:
+                continue
+            prov = provided.get((tk, tn))
+            if prov is None:
+                prov = CORE_PROVIDED.get(im.get("trait"))
+            if prov is None:
+                continue
+            fns = {i["name"] for i in im["items"] if i["kind"] == "AssocFn"}
+            over = (fns & prov)
+            n += 1
+            bad = over - ANALYSED_OVERRIDES
+            if tk == cr.name and tn in ("Encrypt", "Decrypt"):
+                # the cts entry traits: overriding the provided wrappers would bypass check_wrappers
+                bad = over
+            rep.ob("override.analysed", "%s::<%s as %s>" % (cr.name, im["self"], tn), not bad,
+                   ("overrides provided method(s) %s that no rule analyses" % sorted(bad)) if bad else ("overrides %s" % (sorted(over) or "nothing")), None)
+    if n == 0:
+        rep.ob("override.analysed", "workspace", False, "no trait impl with provided methods found")
